@@ -285,6 +285,37 @@ def closure_of(fn, op):
     return None, []
 
 
+def rule_fresh(c, prog):
+    """every way of making an InstanceBuilder gives it a referent of its own"""
+    R = "C09.fresh"
+    c.rule(R, "every struct-literal InstanceBuilder in rbx_dom_weak takes its `referent` from Ref::new() (a fresh, non-null referent) or from a Ref handed in by the caller (with_referent / set_referent): a constructor that starts from the null referent makes every instance built from it collide under Ref::none()")
+    IB = "rbx_dom_weak::instance::InstanceBuilder"
+    n = 0
+    for path, fn in sorted(prog.fns.items()):
+        if fn.crate != "rbx_dom_weak" or fn.body is None or fn.dk == "Closure" or "::test" in path:
+            continue
+        plids = {prm.get("lid") for prm in fn.params if (prm.get("ty") or "").endswith("referent::Ref")}
+        for x in core.walk_fn(fn):
+            if x.get("k") == "Struct" and x.get("def") == IB:
+                fe = [f["e"] for f in x["fields"] if f["f"] == "referent"]
+                if not fe:
+                    if "base" in x:
+                        continue      # `..self`: keeps the referent it already had
+                    continue
+                n += 1
+                e = core.strip(fe[0])
+                inst = f"{U.short_api(path) if path.startswith(DOM) else core.short(path)}"
+                fresh = e.get("k") == "Call" and (core.callee(e) or "").endswith("referent::Ref::new")
+                given = (e.get("k") == "Path" and e.get("lid") in plids) or \
+                    (e.get("k") == "MethodCall" and e["m"] in ("into", "clone") and core.strip(e["recv"]).get("res") == "local" and core.strip(e["recv"]).get("lid") in {prm.get("lid") for prm in fn.params})
+                kept = core.place_root(e)[0] == "self" and core.place_root(e)[1][-1:] == ["referent"]
+                if fresh or given or kept:
+                    c.ok(R, inst)
+                else:
+                    c.violation(R, f"{core.short(path)}|referent", f"{path} builds an InstanceBuilder whose referent is `{core.fingerprint(e, 3)}`, not a fresh Ref::new() (or a referent supplied by the caller): instances inserted from such builders share a referent — the second insert overwrites the first in the instance map and the parent lists the same Ref twice", core.loc(x), instance=inst)
+    c.floor(R, n, 2, "InstanceBuilder constructors")
+
+
 def rule_acyc(c, prog):
     R = "C09.acyc"
     c.rule(R, "a function that re-parents an instance within one DOM (assigns Instance.parent without inner_remove/inner_insert) must first establish that the new parent is not inside the moved subtree (an ancestor walk: a loop reading Instance.parent, dominating the assignment)")
@@ -373,4 +404,5 @@ def run(c, prog):
     rule_link(c, prog)
     rule_acyc(c, prog)
     rule_iter(c, prog)
+    rule_fresh(c, prog)
     c.not_decided += ["the inductive invariant over every history (each operation's code is checked for the preserving shape; histories are not simulated)", "aliasing arguments such as transfer_within(x, x)"]
